@@ -28,6 +28,15 @@ DONE = {
  "C13": ("property-based differential testing, bitwise (proptest, sharded)",
          "Exploration: generated inputs x masks, both routes and all built-in integrals compared bit for bit (canonical dump), ordered-list relation between symmetric and non-symmetric face integrals, with/without stored faces up to rounding.",
          "Trusted: nothing beyond the harness; the with-faces comparison is restricted to well-conditioned cells.", "5 C13"),
+ "C08": ("property-based metamorphic testing (garbage in unused coordinates, bitwise) + closed-form 1D model + differential 2D vs 3D slab (proptest, sharded)",
+         "Exploration: 1D/2D inputs from all families x masks with finite garbage in every unused component (incl. +-1e300, subnormals, f64::MAX); bitwise metamorphic relation, 1D closed form, 2D vs unit-thickness 3D slab, unit in-subspace normals.",
+         "Trusted: the 3D mode as the reference for 2D (its own correctness is C01); tolerance from the library's own conditioning.", "5 C08"),
+ "C10": ("exhaustive enumeration on small integer grids + property-based testing (random / adversarial co-spherical tuples) against an independent big-integer determinant; monotonicity and range of the grid map over generated boxes/positions",
+         "Exploration with exhaustively enumerated sub-spaces: all 5-tuples of the 2x2x2 grid at three offsets (quick), 3x3x3 at two offsets (thorough); random 52-bit tuples; exactly co-spherical quintuples and +-1 perturbations scaled up to 2^48; grid map: generators of generated boxes, all periodic images and mirror images, neighbours one ulp apart, in release and debug-assertion builds.",
+         "Trusted: the harness' Bareiss determinant over num-bigint (cross-checked by the geometric circumcentre reading and on small grids by i128).", "5 C10"),
+ "C19": ("property-based testing of defining equations over generated asymmetric, well-conditioned arguments (proptest, sharded)",
+         "Exploration: tens of thousands (quick) / millions (thorough) of generated planes, points, tetrahedra, triangles, spheres with magnitudes 1e-3..1e6 and deliberately asymmetric coordinates; every exported helper checked against its defining equation.",
+         "Trusted: tolerances scaled by magnitude and conditioning (stated in the rule).", "5 C19"),
 }
 NOT_YET = "check under construction (work in progress; see DESIGN.md section 5)"
 ALL = ["C%02d" % i for i in range(1, 21)]
